@@ -129,3 +129,18 @@ Example C03_ex_duplicate :
   tl (map fst (snd (run ex_cfg [FCall 7 b#"m" None; Back (ex_resp 0 b#"1"); Back (ex_resp 0 b#"1")])))
   = [[OComplete 7 (CResp {| rs_jsonrpc := true; rs_payload := PResult b#"1"; rs_id := IdNum 0 |})]; [OFatal FNotPending]].
 Proof. vm_compute. reflexivity. Qed.
+
+(* ---- down to the bytes on the wire (Proofs/ClientWire.v) ---- *)
+From JV Require Import Proofs.WireFacts Proofs.ClientWire.
+
+Theorem C03_response_frame_classified : forall r : response,
+  wf_response r -> classify_frame (ser_response r) = FSingle (IResp r).
+Proof. exact classify_frame_response. Qed.
+Print Assumptions C03_response_frame_classified.
+
+Theorem C03_answer_completes_call : forall (s : st) (h : handle) (r : response),
+  dead s = false -> dying s = None -> wf_response r ->
+  req_lookup (rs_id r) (m s) = Some (KCall (Some h)) -> alive s h = true ->
+  In (OComplete h (CResp r)) (snd (fst (step s (Back (ser_response r))))).
+Proof. exact answer_completes_call. Qed.
+Print Assumptions C03_answer_completes_call.
